@@ -12,7 +12,7 @@ pub static DEF: PropDef = PropDef {
     title: "Hiding then revealing returns the AVP",
     rule: "G-hide tapes: any of the 39 non-hidden kinds over its encodable value range with payload <= 1006 octets (Sequencing Required is the empty-payload case), secret of 0..64 octets (incl. empty), \
 any 4-octet random vector, length padding chosen so that 2 + |payload| + |lp| <= 1008 by construction with sizes steered to block counts 1, 2, 3, >= 4 and to exact multiples of 16, any alignment padding. \
-Oracle: reveal(hide(a,s,rv,lp,ap),s,rv) = Ok(a) directly, and again after the hidden AVP went through AVP::write -> try_read_greedy; hide(h) = h for hidden h; reveal(a) = Ok(a) for non-hidden a. \
+Oracle: reveal(hide(a,s,rv,lp,ap),s,rv) = Ok(a) directly, and again after the hidden AVP went through AVP::write -> try_read_greedy, and again after it travelled inside an encoded and decoded control message next to the Random Vector AVP carrying rv; hide(h) = h for hidden h; reveal(a) = Ok(a) for non-hidden a. \
 Non-trivial = at least 2 cipher blocks, or empty secret, or empty length padding, or plaintext an exact multiple of 16; distinct by hash of (AVP, secret, rv, paddings).",
     assumptions: &[],
     parts,
@@ -72,6 +72,35 @@ fn check_hide_reveal(h: &HideCase, cx: &mut Cx) -> Res {
         };
         if back != hid {
             return Err("the hidden AVP changed on its way through encode/decode".to_string());
+        }
+        // inside a control message, next to the Random Vector AVP that carries rv
+        {
+            use rl2tp::avp::types::{MessageType, RandomVector};
+            let msg: rl2tp::Message<&[u8]> = rl2tp::Message::Control(rl2tp::ControlMessage {
+                length: 0,
+                tunnel_id: 7,
+                session_id: 0,
+                ns: 1,
+                nr: 2,
+                avps: vec![AVP::MessageType(MessageType::IncomingCallRequest), AVP::RandomVector(RandomVector::from(h.rv)), hid.clone()],
+            });
+            let mut mw = VecWriter::new();
+            msg.write(&mut mw);
+            let mut mr = SliceReader::from(&mw.data[..]);
+            let d: Result<rl2tp::Message<&[u8]>, _> = rl2tp::Message::try_read(&mut mr);
+            match d {
+                Ok(rl2tp::Message::Control(c)) if c.avps.len() == 3 => {
+                    let rv = match &c.avps[1] {
+                        AVP::RandomVector(r) => *r,
+                        other => return Err(format!("the Random Vector AVP came back as {:?}", from_crate(other))),
+                    };
+                    match c.avps[2].clone().reveal(&h.secret, &rv) {
+                        Ok(b) if b == ca => {}
+                        other => return Err(format!("reveal of the hidden AVP taken from a decoded control message returned {:?}", other.map(|x| from_crate(&x)))),
+                    }
+                }
+                other => return Err(format!("a control message carrying the hidden AVP did not decode to 3 AVPs: {:?}", other.map(|m| from_crate_msg(&m)))),
+            }
         }
         match back.reveal(&h.secret, &h.rv.into()) {
             Ok(b) if b == ca => Ok(blocks),
